@@ -6,14 +6,18 @@ open MetricsVerif.Driver MetricsVerif.Recoverable
 
 /-- thread program: calls joined by `+`: `e` emit, `i` into_inner, `d` drop handle, `p` emission in which the
     recorder panics, `n` emission in which the recorder emits again through the wrapper, `k` registration whose returned handle is kept, `u` write through the kept
-    handles, `x` drop the kept handles -/
+    handles, `x` drop the kept handles, `m<d>` emission in which the recorder re-enters the wrapper `d` levels deep,
+    `D` emission during which the recorder drops the RecoveryHandle, `I` emission during which the recorder calls
+    `into_inner` (both from inside the forwarded call) -/
 def progTok (s : String) : Option (List Call) :=
   if s == "-" then some [] else
   (s.splitOn "+").mapM (fun c =>
     match c with
     | "e" => some Call.emit | "i" => some Call.intoInner | "d" => some Call.dropHandle
     | "p" => some Call.emitPanic | "n" => some Call.emitNested
-    | "k" => some Call.emitKeep | "u" => some Call.useKept | "x" => some Call.dropKept | _ => none)
+    | "k" => some Call.emitKeep | "u" => some Call.useKept | "x" => some Call.dropKept
+    | "D" => some Call.emitDropInside | "I" => some Call.emitIntoInside
+    | _ => if c.startsWith "m" then (c.drop 1).toNat?.map Call.emitDeep else none)
 
 def schedTok (s : String) : Option (List Nat) :=
   if s == "-" then some [] else (s.splitOn ".").mapM String.toNat?
@@ -49,7 +53,8 @@ def handle (args : List String) : Option String :=
   | ["free", progs] => do
     -- a free-running round (no scheduler): what every schedule that runs all threads to the end agrees on
     -- (theorems into_inner_exclusive, no_entry_after_end, finalised_at_most_once, inert_after_handle_drop_partial);
-    -- evaluated on the round-robin schedule
+    -- evaluated on the round-robin schedule; by `C20.complete_outcome` / `complete_schedules_agree` EVERY schedule
+    -- that runs all threads to the end gives these values (finalised, recovered) = `completeOutcome progs`
     let progs ← listTok progTok progs
     let n := progs.length
     let fuel := 4 * (progs.foldl (fun a p => a + p.length + 1) 0) * (n + 1)
